@@ -14,6 +14,8 @@
 #include <sys/wait.h>
 #include <votca/csg/beadlist.h>
 #include <votca/csg/topology.h>
+#include <votca/csg/topologyreader.h>
+#include <fstream>
 #include <votca/tools/rangeparser.h>
 #include <votca/tools/tokenizer.h>
 #include <votca/xtp/IndexParser.h>
@@ -722,6 +724,177 @@ static void run_beadlist(vfh::Rng &rng, vfh::Reporter &R, long n) {
   }
 }
 
+// ------------------------------------------------------------------ (D2) bead selection on registered / reader-built topologies
+// Types and names may contain '*' and '?' themselves (old nucleic-acid atom names C5*, O5*, ...). In the pattern these
+// characters are wildcards, in the bead's own type / name they are literal characters to be matched.
+struct BL2Bead { std::string name, type; };
+static void run_beadlist2(vfh::Rng &rng, vfh::Reporter &R, long n, const std::string &tmpdir, long shard) {
+  using namespace votca::csg;
+  static const std::vector<std::string> words = {"C5*", "C4*", "O5*", "C5", "C5M", "C4", "O5", "C4'", "H5''", "H5'", "C?", "C1", "C2", "CA", "*", "?", "A*B", "AxB", "AB", "a*", "a", "ab", "b", "H", "N1", "O*", "OP1"};
+  static const std::vector<std::string> pdbwords = {"C5*", "C4*", "O5*", "C5", "C5M", "C4", "O5", "C4'", "H5''", "H5'", "C?", "C1", "C2", "CA", "H", "N1", "O*", "OP1", "N?", "C*"};
+  static bool plugins = false;
+  if (!plugins) { TopologyReader::RegisterPlugins(); plugins = true; }
+  std::ostringstream devnull;
+  for (long it = 0; it < n; ++it) {
+    Topology top;
+    int mode = (int)(it % 5);  // 0 unregistered, 1 registered, 2 gro reader, 3 pdb reader, 4 xml reader
+    if (tmpdir.empty() && mode >= 2) mode = (int)(it % 2);
+    long nb = rng.range(1, 24);
+    std::vector<BL2Bead> beads;
+    bool force_family = rng.coin(0.5);  // wildcard type + other types its glob matches
+    for (long k = 0; k < nb; ++k) {
+      const std::vector<std::string> &W = mode == 3 ? pdbwords : words;
+      std::string t = rng.pick(W), nm = rng.pick(W);
+      if (force_family && k < 4) { static const char *fam[] = {"C5*", "C5", "C5M", "C4*"}; t = fam[k]; if (rng.coin()) nm = fam[(k + 1) % 4]; }
+      if (mode == 2 || mode == 3) nm = t;  // these readers use the atom name as the type
+      beads.push_back({nm, t});
+    }
+    std::string how;
+    try {
+      if (mode <= 1) {
+        how = mode == 0 ? "CreateBead, empty type registry" : "RegisterBeadType for every type + CreateBead";
+        for (auto &b : beads) {
+          if (mode == 1 && !top.BeadTypeExist(b.type)) top.RegisterBeadType(b.type);
+          top.CreateBead(Bead::spherical, b.name, b.type, 0, 1.0, 0.0);
+        }
+        R.counter(mode == 0 ? "beadlist_topologies_unregistered" : "beadlist_topologies_registered");
+      } else {
+        std::string ext = mode == 2 ? "gro" : mode == 3 ? "pdb" : "xml";
+        std::string fn = tmpdir + "/bl_" + std::to_string(shard) + "_" + std::to_string(it) + "." + ext;
+        {
+          std::ofstream f(fn);
+          char buf[256];
+          if (mode == 2) {
+            f << "generated\n" << nb << "\n";
+            for (long k = 0; k < nb; ++k) {
+              snprintf(buf, sizeof buf, "%5d%-5s%5s%5ld%8.3f%8.3f%8.3f%8.4f%8.4f%8.4f\n", 1, "NUC", beads[k].name.c_str(), k + 1, 0.0, 0.0, 0.0, 0.0, 0.0, 0.0);
+              f << buf;
+            }
+            f << "   5.00000   5.00000   5.00000\n";
+          } else if (mode == 3) {
+            f << "CRYST1   50.000   50.000   50.000  90.00  90.00  90.00 P 1           1\n";
+            for (long k = 0; k < nb; ++k) {
+              char el = beads[k].name[0];
+              snprintf(buf, sizeof buf, "ATOM  %5ld %-4s %3s %c%4d    %8.3f%8.3f%8.3f%6.2f%6.2f          %2c%2s\n", k + 1, beads[k].name.c_str(), "NUC", 'A', 1, 0.0, 0.0, 0.0, 1.0, 0.0, el, " 0");
+              f << buf;
+            }
+            f << "END\n";
+          } else {
+            // one molecule per bead: the xml reader wants unique bead names inside a molecule
+            f << "<topology>\n <molecules>\n";
+            for (long k = 0; k < nb; ++k)
+              f << "  <molecule name=\"M" << k << "\" nmols=\"1\" nbeads=\"1\">\n   <bead name=\"" << beads[k].name << "\" type=\"" << beads[k].type << "\" mass=\"1\" q=\"0\"/>\n  </molecule>\n";
+            f << " </molecules>\n</topology>\n";
+          }
+        }
+        how = "read from a generated ." + ext + " file";
+        std::streambuf *old = std::cout.rdbuf(devnull.rdbuf()), *olde = std::cerr.rdbuf(devnull.rdbuf());  // the readers are chatty
+        try {
+          auto reader = TopReaderFactory().Create(fn);
+          reader->ReadTopology(fn, top);
+        } catch (...) { std::cout.rdbuf(old); std::cerr.rdbuf(olde); unlink(fn.c_str()); throw; }
+        std::cout.rdbuf(old);
+        std::cerr.rdbuf(olde);
+        devnull.str("");
+        unlink(fn.c_str());
+        R.counter("beadlist_topologies_reader_" + ext);
+        if ((long)top.BeadCount() != nb) { R.violation("beadlist/reader-bead-count", "reader-built topology has a different number of beads", J().s("how", how).i("got", top.BeadCount()).i("expected", nb)); continue; }
+        // what the reader stored is what is matched against
+        bool same = true;
+        for (long k = 0; k < nb; ++k) same &= (top.getBead(k)->getType() == beads[k].type && top.getBead(k)->getName() == beads[k].name);
+        if (!same) { R.counter("beadlist_reader_stored_other_names_than_written"); for (long k = 0; k < nb; ++k) { beads[k].type = top.getBead(k)->getType(); beads[k].name = top.getBead(k)->getName(); } }
+      }
+    } catch (std::exception &e) {
+      R.inconclusive(std::string("beadlist: building a topology failed (") + how + "): " + e.what());
+      continue;
+    }
+    // positions and box (for the spherical sub-volume)
+    bool open_box = rng.coin(0.4);
+    Eigen::Matrix3d box = Eigen::Matrix3d::Zero();
+    double L = rng.uni(4, 9);
+    if (!open_box) box.diagonal() << L, L, L;
+    top.setBox(box);
+    std::vector<Eigen::Vector3d> pos(nb);
+    for (long k = 0; k < nb; ++k) { pos[k] = Eigen::Vector3d(rng.uni(0, L), rng.uni(0, L), rng.uni(0, L)); top.getBead(k)->setPos(pos[k]); }
+    std::set<std::string> registered;
+    for (auto &b : beads) if (top.BeadTypeExist(b.type)) registered.insert(b.type);
+    // selections: equal to a type / name of the topology, prefixes, ordinary globs
+    std::vector<std::string> sels;
+    for (int q = 0; q < 3; ++q) sels.push_back(beads[rng.next() % nb].type);
+    sels.push_back(beads[rng.next() % nb].name);
+    for (auto &b : beads) if (b.type.find_first_of("*?") != std::string::npos && rng.coin(0.7)) sels.push_back(b.type);
+    { std::string t = beads[rng.next() % nb].type; sels.push_back(t.substr(0, 1 + rng.next() % t.size())); sels.push_back(t.substr(0, 1 + rng.next() % t.size()) + "*"); }
+    for (int q = 0; q < 3; ++q) {
+      std::string pat;
+      int lp = (int)rng.range(1, 4);
+      static const std::string al = "*?C5aOAB4'M";
+      for (int k = 0; k < lp; ++k) pat += al[rng.next() % al.size()];
+      sels.push_back(pat);
+    }
+    sels.push_back("*");
+    std::string desc;
+    for (long k = 0; k < nb; ++k) desc += beads[k].type + "/" + beads[k].name + " ";
+    for (const std::string &pat : sels) {
+      if (pat.rfind("name:", 0) == 0) continue;
+      for (int byname = 0; byname < 2; ++byname) {
+        std::string sel = byname ? "name:" + pat : pat;
+        bool wildpat = pat.find_first_of("*?") != std::string::npos;
+        bool eq_reg_wild = !byname && wildpat && registered.count(pat);
+        if (eq_reg_wild) R.counter("beadlist_selections_equal_to_a_registered_wildcard_type");
+        std::vector<long> match;
+        for (long k = 0; k < nb; ++k) if (glob_dp(pat, byname ? beads[k].name : beads[k].type)) match.push_back(k);
+        bool glob_matches_other = false;
+        for (long k : match) glob_matches_other |= ((byname ? beads[k].name : beads[k].type) != pat);
+        if (eq_reg_wild && glob_matches_other) R.counter("beadlist_selections_equal_to_registered_wildcard_type_and_glob_matches_other_types");
+        auto wit = [&](const std::vector<long> &got, const std::vector<long> &want) {
+          J j;
+          j.s("topology", how).s("select", sel).s("beads_type/name", desc).vec("got_ids", got).vec("expected_ids", want).b("selection_is_a_registered_type", registered.count(pat) > 0);
+          return j;
+        };
+        // Generate
+        {
+          BeadList bl;
+          Index cnt = bl.Generate(top, sel);
+          std::vector<long> got;
+          for (Bead *b : bl) got.push_back((long)b->getId());
+          R.eval(byname ? "beadlist2_generate_by_name" : "beadlist2_generate_by_type");
+          if (got != match || cnt != (Index)match.size())
+            R.violation(eq_reg_wild ? "beadlist/registered-wildcard-type/selection-differs" : byname ? "beadlist/name-selection" : "beadlist/type-selection",
+                        "BeadList::Generate does not return exactly the beads whose type/name matches the pattern", wit(got, match));
+        }
+        // GenerateInSphericalSubvolume
+        {
+          Eigen::Vector3d ref(rng.uni(0, L), rng.uni(0, L), rng.uni(0, L));
+          double radius = rng.uni(0.5, open_box ? 1.2 * L : 0.45 * L);
+          std::vector<long> want;
+          bool band = false;
+          for (long k : match) {
+            Eigen::Vector3d d = pos[k] - ref;
+            if (!open_box) for (int c = 0; c < 3; ++c) d[c] -= L * std::round(d[c] / L);
+            double dist = d.norm();
+            if (std::fabs(dist - radius) < 1e-9 * L) band = true;
+            if (dist <= radius) want.push_back(k);
+          }
+          if (band) { R.counter("beadlist_subvolume_bead_on_the_sphere_skipped"); continue; }
+          BeadList bl;
+          Index cnt = bl.GenerateInSphericalSubvolume(top, sel, ref, radius);
+          std::vector<long> got;
+          for (Bead *b : bl) got.push_back((long)b->getId());
+          R.eval(byname ? "beadlist2_subvolume_by_name" : "beadlist2_subvolume_by_type");
+          if (got != want || cnt != (Index)want.size()) {
+            J j = wit(got, want);
+            j.vec("ref", std::vector<double>{ref.x(), ref.y(), ref.z()}).d("radius", radius).d("box_edge_or_0_for_open", open_box ? 0.0 : L);
+            R.violation(eq_reg_wild ? "beadlist/registered-wildcard-type/selection-differs/subvolume" : byname ? "beadlist/name-selection/subvolume" : "beadlist/type-selection/subvolume",
+                        "BeadList::GenerateInSphericalSubvolume does not return exactly the matching beads inside the sphere", j);
+          }
+          if (!want.empty() && want.size() != (size_t)nb) R.nontrivial(vfh::hstr(vfh::hstr(vfh::hmix(42, (uint64_t)it), sel), desc));
+        }
+        if (R.want_sample() && eq_reg_wild && glob_matches_other && match.size() >= 2) R.sample(wit(match, match));
+      }
+    }
+  }
+}
+
 int main(int argc, char **argv) {
   vfh::Args A(argc, argv);
   long seed = A.num("seed", 1), shard = A.num("shard", 0), nshards = A.num("shards", 16);
@@ -759,6 +932,7 @@ int main(int argc, char **argv) {
   { vfh::Rng r(s + 1818); run_index(r, R, nindex); }
   { vfh::Rng r(s + 1819); run_index_reuse(r, R, nindex / 4 + 1); }
   { vfh::Rng r(s + 18181); run_beadlist(r, R, nbead); }
+  { vfh::Rng r(s + 18182); run_beadlist2(r, R, nbead, A.str("tmpdir", ""), shard); }
   R.summary();
   return 0;
 }
